@@ -44,7 +44,9 @@ COMMUTATIVE = ("add", "mul")
 XNAMES = ("spot", "moneyness", "log_moneyness")
 VNAMES = ("volatility", "variance")
 
-_x, _y, _T, _K = sp.symbols("x y T K", real=True)
+# no assumptions on the symbols: with real symbols sympy rewrites sqrt(x**2) as Abs(x), whose second
+# derivative is a DiracDelta; the formal derivatives are what the chain rule needs on the smooth domain
+_x, _y, _T, _K = sp.symbols("x y T K")
 SYMS = (_x, _y, _T, _K)
 
 
